@@ -494,4 +494,113 @@ theorem rendered_float_plain {s : Str} {sh : List Nat} (fs : List FloatD) (hok :
     · refine ⟨?_, ?_, ?_⟩ <;> (intro e; rw [e] at hd; exact absurd hd (by decide))
     all_goals decide
 
+/-! ### ragged arrays are rejected -/
+
+/-- the item whose shape differs from the shape seen so far stops `pElems` with an error -/
+theorem pElems_bad (sh0 sh1 : List Nat) (bad : Str × List Tok) (hb : ItemOk sh1 bad) (hne : sh1 ≠ sh0)
+    (f n : Nat) (acc : List Tok) (post : Str) (hf : bad.1.length + 1 ≤ f)
+    (hpost : post = [] ∨ ∃ c r, post = c :: r ∧ isDelim c = true) :
+    pElems (f + 1) (bad.1 ++ post) (some sh0) n acc = .error .fail := by
+  unfold pElems
+  simp only [bind, Except.bind]
+  rw [hb.2 f post hf hpost]
+  have : (sh0 != sh1) = true := by
+    rw [bne_iff_ne]; exact fun e => hne e.symm
+  simp only [this, if_true]
+
+theorem pElems_ragged (sh0 sh1 : List Nat) (bad : Str × List Tok) (hb : ItemOk sh1 bad) (hne : sh1 ≠ sh0) (post : Str)
+    (hpost : post = [] ∨ ∃ c r, post = c :: r ∧ isDelim c = true) :
+    ∀ (pre : List (Str × List Tok)) (f n : Nat) (acc : List Tok) (sh : Option (List Nat)),
+    pre ≠ [] → (∀ it ∈ pre, ItemOk sh0 it) → totalLen pre + pre.length + bad.1.length + 1 ≤ f →
+    (sh = none ∨ sh = some sh0) →
+    pElems f (joinWith [','] (pre.map Prod.fst) ++ ',' :: (bad.1 ++ post)) sh n acc = .error .fail := by
+  intro pre
+  induction pre with
+  | nil => intro _ _ _ _ h; exact absurd rfl h
+  | cons it ts ih =>
+    intro f n acc sh _ hok hf hsh
+    obtain ⟨⟨c0, r0, hc0, _, _⟩, hpv⟩ := hok it (by simp)
+    have hlen : 1 ≤ it.1.length := by rw [hc0]; simp
+    have htl : totalLen (it :: ts) = it.1.length + totalLen ts := by simp [totalLen]
+    obtain ⟨f', rfl⟩ : ∃ f', f = f' + 1 := ⟨f - 1, by omega⟩
+    cases ts with
+    | nil =>
+      have h0 : totalLen ([] : List (Str × List Tok)) = 0 := rfl
+      simp only [List.map_cons, List.map_nil, joinWith]
+      simp only [htl, h0, List.length_cons, List.length_nil] at hf
+      obtain ⟨f'', rfl⟩ : ∃ f'', f' = f'' + 1 := ⟨f' - 1, by omega⟩
+      have hbad := pElems_bad sh0 sh1 bad hb hne f'' (n + 1) (acc ++ it.2) post (by omega) hpost
+      unfold pElems
+      simp only [bind, Except.bind]
+      rw [hpv (f'' + 1) (',' :: (bad.1 ++ post)) (by omega) (.inr ⟨',', _, rfl, by decide⟩)]
+      rcases hsh with rfl | rfl
+      · simp only [Bool.false_eq_true, if_false]
+        rw [dropWs_cons ',' _ (by decide)]
+        simp only
+        rw [hbad]
+      · simp only [bne_self_eq_false, Bool.false_eq_true, if_false]
+        rw [dropWs_cons ',' _ (by decide)]
+        simp only
+        rw [hbad]
+    | cons it2 ts2 =>
+      have htl2 : totalLen (it2 :: ts2) = it2.1.length + totalLen ts2 := by simp [totalLen]
+      simp only [List.map_cons, joinWith, List.append_assoc, List.cons_append,
+        List.nil_append]
+      unfold pElems
+      simp only [bind, Except.bind]
+      rw [hpv f' (',' :: (joinWith [','] (it2.1 :: ts2.map Prod.fst) ++ ',' :: (bad.1 ++ post)))
+        (by simp only [htl, htl2, List.length_cons] at hf; omega) (.inr ⟨',', _, rfl, by decide⟩)]
+      have hrec := ih f' (n + 1) (acc ++ it.2) (some sh0) (by simp)
+        (fun x hx => hok x (List.mem_cons_of_mem _ hx))
+        (by simp only [htl, htl2, List.length_cons] at hf ⊢; omega) (.inr rfl)
+      simp only [List.map_cons] at hrec
+      rcases hsh with rfl | rfl
+      · simp only [Bool.false_eq_true, if_false]
+        rw [dropWs_cons ',' _ (by decide)]
+        simp only
+        rw [hrec]
+      · simp only [bne_self_eq_false, Bool.false_eq_true, if_false]
+        rw [dropWs_cons ',' _ (by decide)]
+        simp only
+        rw [hrec]
+
+/-- `json.loads` + numpy on `[item,…,item,BAD…`: the first item whose shape differs from the items before it
+    makes the whole value fail, whatever follows -/
+theorem parseJson_ragged (sh0 sh1 : List Nat) (pre : List (Str × List Tok)) (bad : Str × List Tok) (post : Str)
+    (hpre : pre ≠ []) (h0 : ∀ it ∈ pre, Rendered it.1 sh0 it.2) (h1 : Rendered bad.1 sh1 bad.2) (hne : sh1 ≠ sh0)
+    (hpost : post = [] ∨ ∃ c r, post = c :: r ∧ isDelim c = true) :
+    parseJson ('[' :: (joinWith [','] (pre.map Prod.fst) ++ ',' :: (bad.1 ++ post))) = .error .fail := by
+  have hok : ∀ it ∈ pre, ItemOk sh0 it := fun it hit => pVal_rendered (h0 it hit)
+  have hb : ItemOk sh1 bad := pVal_rendered h1
+  obtain ⟨it0, ts, rfl⟩ : ∃ it0 ts, pre = it0 :: ts := by
+    cases pre with | nil => exact absurd rfl hpre | cons a b => exact ⟨a, b, rfl⟩
+  obtain ⟨⟨c, r, hc, hcw, hcb⟩, _⟩ := hok it0 (by simp)
+  have hbody : ∃ r', joinWith [','] ((it0 :: ts).map Prod.fst) ++ ',' :: (bad.1 ++ post) = c :: r' := by
+    cases ts with
+    | nil => exact ⟨r ++ ',' :: (bad.1 ++ post), by simp [joinWith, hc]⟩
+    | cons b t2 => exact ⟨r ++ ',' :: (joinWith [','] ((b :: t2).map Prod.fst) ++ ',' :: (bad.1 ++ post)), by simp [joinWith, hc]⟩
+  obtain ⟨r', hr'⟩ := hbody
+  have hlen := (joinWith_length_le (it0 :: ts)).2 (by simp)
+  have hpe := pElems_ragged sh0 sh1 bad hb hne post hpost (it0 :: ts)
+    ('[' :: (joinWith [','] ((it0 :: ts).map Prod.fst) ++ ',' :: (bad.1 ++ post))).length 0 [] none (by simp) hok
+    (by simp only [List.length_cons, List.length_append] at hlen ⊢; omega) (.inl rfl)
+  have hpv : pVal (('[' :: (joinWith [','] ((it0 :: ts).map Prod.fst) ++ ',' :: (bad.1 ++ post))).length + 1)
+      ('[' :: (joinWith [','] ((it0 :: ts).map Prod.fst) ++ ',' :: (bad.1 ++ post))) = .error .fail := by
+    unfold pVal
+    rw [dropWs_cons '[' _ (by decide)]
+    simp only
+    rw [hr', dropWs_cons c r' hcw]
+    split
+    · rename_i heq; exact absurd (List.cons.inj heq).1 hcb
+    · rw [← hr', hpe]
+  simp only [parseJson, hpv, bind, Except.bind]
+
+/-- one definition line whose value cannot be cast: `parse` fails with that error -/
+theorem parseLines_single_define_error (P : Params) (line : Str) (nd : Node) (t : Ty) (nm : Str) (e : Err)
+    (hdet : determine line = .ok nd) (hk : nd.kind = .typed t) (hn : nd.name = some nm)
+    (hpre : preCheck P nd = .ok ()) (hv : initValue P t nd.dims nd.raw = .error e) :
+    parseLines P [line] = .error e := by
+  simp [parseLines, hdet, parseNodes, runNodes, step, hk, stepPlain, hn, hpre, updateFirst, hv,
+    bind, Except.bind, pure, Except.pure]
+
 end SciVerif.C13
